@@ -991,3 +991,209 @@ Proof.
   intros amb q. unfold pctl_lin. f_equal. f_equal. f_equal. rewrite <- concat_map.
   induction (concat amb) as [|x r IH]; [reflexivity|]. cbn [map fins]. rewrite IH. reflexivity.
 Qed.
+
+(* ------------------------------------------------------------------ degenerate volumes: no finite cost, or all
+   finite costs equal (max_cost - min_cost = 0: the kernels divide 0 by 0, every normalised cost is NaN).  Outside
+   the property's domain; the generated kernels still agree with the model's maps. *)
+
+Definition degen (omn omx : option Q) : Prop :=
+  match omn, omx with Some mn, Some mx => Qeq_bool mn mx = true | _, _ => True end.
+
+Lemma qsgn_zero x : (x == 0)%Q -> qsgn x = 0.
+Proof. intro H. unfold Qeq in H. simpl in H. rewrite Z.mul_1_r in H. unfold qsgn. rewrite H. reflexivity. Qed.
+
+Lemma norm_nan omn omx (o : oq) : degen omn omx ->
+  (forall x mn, o = Some x -> omn = Some mn -> (x == mn)%Q) ->
+  xdiv (xsub (of_oq o) (of_oq omn)) (xsub (of_oq omx) (of_oq omn)) = XNaN.
+Proof.
+  intros D H. destruct omn as [mn|], omx as [mx|], o as [x|]; cbn [of_oq xsub xadd xneg xdiv]; try reflexivity.
+  cbn [degen] in D. rewrite qeqb_diff.
+  assert (E : Qeq_bool mx mn = true) by (apply Qeq_bool_iff; apply Qeq_bool_iff in D; symmetry; exact D).
+  rewrite E. rewrite qsgn_zero; [reflexivity|]. specialize (H x mn eq_refl eq_refl). lra.
+Qed.
+
+Lemma nmc_degenerate omn omx c : degen omn omx ->
+  (forall x mn, In (Some x) c -> omn = Some mn -> (x == mn)%Q) ->
+  xisnan (xdiv (xsub (np_nanmin (xcurve c)) (of_oq omn)) (xsub (of_oq omx) (of_oq omn))) = true.
+Proof.
+  intros D H. rewrite np_nanmin_embed, (norm_nan omn omx (nanmin c) D); [reflexivity|].
+  intros x mn E1 E2. apply (H x mn); [|exact E2]. apply nanmin_spec in E1. tauto.
+Qed.
+
+Lemma norm_all_nan omn omx c : degen omn omx ->
+  (forall x mn, In (Some x) c -> omn = Some mn -> (x == mn)%Q) ->
+  vs xdiv (vs xsub (xcurve c) (of_oq omn)) (xsub (of_oq omx) (of_oq omn)) = map (fun _ => XNaN) c.
+Proof.
+  intros D H. unfold vs, xcurve. rewrite !map_map. apply map_ext_in. intros o Ho.
+  apply (norm_nan omn omx o D). intros x mn -> E. apply (H x mn Ho E).
+Qed.
+
+Lemma amb_pixel_degenerate omn omx etas td c : degen omn omx ->
+  (forall x mn, In (Some x) c -> omn = Some mn -> (x == mn)%Q) ->
+  G.compute_ambiguity_pixel (of_oq omn) (of_oq omx) (vlen c) (xetas etas) td (xcurve c) (XFin 0)
+  = Some (xofz (amb_allnan etas c)).
+Proof.
+  intros D H. unfold G.compute_ambiguity_pixel. rewrite (nmc_degenerate _ _ _ D H), vlen_xetas. reflexivity.
+Qed.
+
+Lemma samp_pixel_degenerate omn omx etas td c z : degen omn omx ->
+  (forall x mn, In (Some x) c -> omn = Some mn -> (x == mn)%Q) ->
+  exists s, G.compute_ambiguity_and_sampled_ambiguity_pixel (of_oq omn) (of_oq omx) (vlen c) (xetas etas) td (xcurve c) (XFin 0) z
+            = Some (xofz (amb_allnan etas c), s).
+Proof.
+  intros D H. unfold G.compute_ambiguity_and_sampled_ambiguity_pixel. rewrite (nmc_degenerate _ _ _ D H), vlen_xetas.
+  eexists. reflexivity.
+Qed.
+
+Lemma risk_pixel_degenerate omn omx etas td c s : degen omn omx ->
+  (forall x mn, In (Some x) c -> omn = Some mn -> (x == mn)%Q) ->
+  G.compute_risk_pixel (of_oq omn) (of_oq omx) (vlen c) (xetas etas) td (xcurve c) s (XFin 0) (XFin 0) = Some (XNaN, XNaN).
+Proof. intros D H. unfold G.compute_risk_pixel. rewrite (nmc_degenerate _ _ _ D H). reflexivity. Qed.
+
+Lemma selb_all_nan {A : Type} (c : list A) T j : selb (map (fun _ => XNaN) c) T j = false.
+Proof.
+  unfold selb, v_get. destruct (norm_index _ j) as [k|]; [|reflexivity].
+  rewrite nth_error_map'. destruct (nth_error c k); cbn [option_map]; [|reflexivity]. destruct T; reflexivity.
+Qed.
+
+Lemma bounds_pixel_degenerate argsort omn omx tf thr dv c : argsort_ok argsort -> degen omn omx ->
+  (forall x mn, In (Some x) c -> omn = Some mn -> (x == mn)%Q) ->
+  G.compute_interval_bounds_pixel argsort dv thr tf (of_oq omn) (of_oq omx) (vlen c) (xcurve c) (xofz 0) (xofz 0)
+  = Some (XNaN, XNaN).
+Proof.
+  intros Hsort D H. unfold G.compute_interval_bounds_pixel. rewrite (norm_all_nan _ _ _ D H).
+  match goal with |- context [sv xmul tf ?N] => set (P := N) end.
+  assert (HP : vs xsub (vs xadd (sv xmul tf P) (xofz 1)) (np_nanmax (sv xmul tf P)) = P).
+  { unfold vs, sv, P. rewrite !map_map. apply map_ext. intros _. destruct tf; reflexivity. }
+  rewrite HP.
+  destruct (take_sel P thr (argsort P)) as (l & H1 & H2); [intros j Hj; apply Hsort; exact Hj|].
+  rewrite H1, H2. rewrite b_sum_filter.
+  assert (HF : filter (selb P thr) (argsort P) = []).
+  { clear H1 H2. induction (argsort P) as [|j r IH]; [reflexivity|]. cbn [filter]. unfold P at 1. rewrite selb_all_nan. exact IH. }
+  rewrite HF. reflexivity.
+Qed.
+
+(* all finite costs of a degenerate volume are equal to its minimum *)
+Lemma degen_costs (v : volume) mn mx : vol_min v = Some mn -> vol_max v = Some mx -> Qeq_bool mn mx = true ->
+  forall row c x, In row v -> In c row -> In (Some x) c -> (x == mn)%Q.
+Proof.
+  intros Emn Emx Eq row c x Hrow Hc Hx. apply Qeq_bool_iff in Eq.
+  assert (I : In (Some x) (concat (concat v))).
+  { apply in_concat. exists c. split; [|exact Hx]. apply in_concat. exists row. split; assumption. }
+  unfold vol_min in Emn. unfold vol_max in Emx. apply nanmin_spec in Emn. apply nanmax_spec in Emx.
+  destruct Emn as [_ L1], Emx as [_ L2]. pose proof (L1 x I). pose proof (L2 x I). lra.
+Qed.
+
+Lemma omap2_const {A A' B : Type} (f : A' -> option B) (h : A -> A') (g : A -> B) (m : list (list A)) :
+  (forall row x, In row m -> In x row -> f (h x) = Some (g x)) ->
+  omap2 f (map (map h) m) = Some (map (map g) m).
+Proof.
+  intro H. destruct (omap2_Forall2 f h g eq m) as (ys & E & HF).
+  { intros row x Hrow Hx. exists (g x). split; [apply (H row x Hrow Hx)|reflexivity]. }
+  rewrite E. f_equal. apply Forall2_eq. eapply Forall2_impl; [|exact HF]. intros. apply Forall2_eq. assumption.
+Qed.
+
+Lemma Forall2_refl_map {A B : Type} (R : B -> B -> Prop) (f : A -> B) l : (forall x, R (f x) (f x)) -> Forall2 R (map f l) (map f l).
+Proof. intro H. apply Forall2_map_same. exact H. Qed.
+
+Section AllVolumes.
+  Variables (v : volume) (nd : nat).
+  Hypothesis Hsh : vol_shape nd v.
+
+  (* either the property's domain (two distinct finite extrema) or a degenerate volume *)
+  Lemma vol_cases :
+    (exists mn mx, vol_min v = Some mn /\ vol_max v = Some mx /\ Qeq_bool mn mx = false /\ ~ (mn == mx)%Q)
+    \/ (degen (vol_min v) (vol_max v)
+        /\ forall row c x mn, In row v -> In c row -> In (Some x) c -> vol_min v = Some mn -> (x == mn)%Q).
+  Proof.
+    destruct (vol_min v) as [mn|] eqn:Emn; [|right; split; [exact I|discriminate]].
+    destruct (vol_max v) as [mx|] eqn:Emx; [|right; split; [exact I|]].
+    - destruct (Qeq_bool mn mx) eqn:Eq.
+      + right. split; [exact Eq|]. intros row c x mn' Hrow Hc Hx E. inversion E; subst mn'.
+        apply (degen_costs v mn mx Emn Emx Eq row c x Hrow Hc Hx).
+      + left. exists mn, mx. repeat split; auto. intro C. apply Qeq_bool_iff in C. congruence.
+    - intros row c x mn' Hrow Hc Hx _. exfalso.
+      assert (I0 : In (Some x) (concat (concat v))).
+      { apply in_concat. exists c. split; [|exact Hx]. apply in_concat. exists row. split; assumption. }
+      destruct (nanmax_some _ _ I0) as (m' & E'). unfold vol_max in Emx. congruence.
+  Qed.
+
+  Theorem gen_amb_map_eq_all etas : (0 < nd)%nat ->
+    exists m, G.compute_ambiguity (xvolume v) (xetas etas) = Some m
+              /\ Forall2 (Forall2 xeq) m (map (map xofz) (amb_map etas v)).
+  Proof.
+    intro Hnd. unfold G.compute_ambiguity. rewrite nanmin3_embed, nanmax3_embed, shape3_embed.
+    destruct Hsh as [Hhd Hall]. rewrite Hhd.
+    destruct (gen_two_dim_etas etas nd Hnd) as (m0 & E0 & E1). rewrite E0, E1.
+    destruct vol_cases as [(mn & mx & Emn & Emx & Eq & Ne)|[D Hc]].
+    - unfold amb_map. rewrite Emn, Emx, Eq. cbn [of_oq]. rewrite mapmap_comp.
+      apply (omap2_Forall2 _ xcurve (fun c => xofz (amb_pixel mn mx etas c)) xeq).
+      intros row c Hrow Hc. rewrite <- (Hall row c Hrow Hc). apply (gen_amb_pixel_eq mn mx etas c Ne).
+    - assert (Ea : amb_map etas v = map (map (amb_allnan etas)) v).
+      { unfold amb_map. unfold degen in D. destruct (vol_min v), (vol_max v); try reflexivity. rewrite D. reflexivity. }
+      rewrite Ea, mapmap_comp. unfold xvolume.
+      rewrite (omap2_const _ xcurve (fun c => xofz (amb_allnan etas c))).
+      + eexists. split; [reflexivity|]. apply Forall2_refl_map. intro row. apply Forall2_refl_map. intro. apply xeq_refl.
+      + intros row c Hrow Hc'. rewrite <- (Hall row c Hrow Hc').
+        apply amb_pixel_degenerate; [exact D|]. intros x mn Hx E. apply (Hc row c x mn Hrow Hc' Hx E).
+  Qed.
+
+  Theorem gen_bounds_map_eq_all argsort tf thr disps : argsort_ok argsort -> length disps = nd ->
+    G.compute_interval_bounds argsort (xvolume v) (xetas disps) (XFin thr) (XFin tf)
+    = Some (map (map xpair) (bounds_map tf thr disps v)).
+  Proof.
+    intros Hsort Hd. unfold G.compute_interval_bounds. rewrite nanmin3_embed, nanmax3_embed, shape3_embed.
+    destruct Hsh as [Hhd Hall]. rewrite Hhd.
+    destruct vol_cases as [(mn & mx & Emn & Emx & Eq & Ne)|[D Hc]].
+    - unfold bounds_map. rewrite Emn, Emx, Eq. cbn [of_oq]. rewrite mapmap_comp. unfold xvolume.
+      apply omap2_const. intros row c Hrow Hc. rewrite <- (Hall row c Hrow Hc).
+      apply (gen_bounds_pixel_eq argsort mn mx tf thr disps c Hsort Ne). rewrite Hd. symmetry. apply (Hall row c Hrow Hc).
+    - assert (Eb : bounds_map tf thr disps v = map (map (fun _ => (None, None))) v).
+      { unfold bounds_map. unfold degen in D. destruct (vol_min v), (vol_max v); try reflexivity. rewrite D. reflexivity. }
+      rewrite Eb, mapmap_comp. unfold xvolume. apply omap2_const.
+      intros row c Hrow Hc'. rewrite <- (Hall row c Hrow Hc').
+      apply bounds_pixel_degenerate; [exact Hsort|exact D|]. intros x mn Hx E. apply (Hc row c x mn Hrow Hc' Hx E).
+  Qed.
+
+  Theorem gen_risk_map_eq_all etas : (0 < nd)%nat ->
+    exists m, grisk_map v etas = Some m /\ Forall2 (Forall2 xeq2) m (map (map xpair) (risk_map etas v)).
+  Proof.
+    intro Hnd. unfold grisk_map, G.compute_ambiguity_and_sampled_ambiguity, G.compute_risk.
+    rewrite nanmin3_embed, nanmax3_embed, shape3_embed.
+    destruct Hsh as [Hhd Hall]. rewrite Hhd.
+    destruct (gen_two_dim_etas etas nd Hnd) as (m0 & E0 & E1). rewrite E0, E1.
+    destruct vol_cases as [(mn & mx & Emn & Emx & Eq & Ne)|[D Hc]].
+    - unfold risk_map. rewrite Emn, Emx, Eq. cbn [of_oq].
+      destruct (omap2_Forall2
+                  (fun cv_rc => G.compute_ambiguity_and_sampled_ambiguity_pixel (XFin mn) (XFin mx) (Z.of_nat nd) (xetas etas)
+                                  (two_dim nd etas) cv_rc (XFin 0) (np_zeros (vlen (xetas etas))))
+                  xcurve (fun c => c) (fun p c => snd p = v_ofz (samp_pixel mn mx etas c)) v) as (M & EM & HM).
+      { intros row c Hrow Hc. rewrite <- (Hall row c Hrow Hc).
+        destruct (gen_samp_pixel_eq mn mx etas c Ne) as (r & E & X). eexists. split; [exact E|reflexivity]. }
+      unfold xvolume. rewrite EM. rewrite (map_ext _ _ (fun row => map_id row)), map_id in HM. rewrite mapmap_comp.
+      apply (ozip2_Forall2 _ xcurve (fun c => xpair (risk_pixel mn mx etas c)) xeq2
+                           (fun s c => s = v_ofz (samp_pixel mn mx etas c))).
+      + apply Forall2_map_l. eapply Forall2_impl; [|exact HM]. intros r0 row0 H0. apply Forall2_map_l. exact H0.
+      + intros row c s Hrow Hc Hs'. subst s. rewrite <- (Hall row c Hrow Hc).
+        destruct (gen_risk_pixel_eq' mn mx etas c Ne) as (ra & rb & E & Xa & Xb).
+        eexists. split; [exact E|]. split; assumption.
+    - assert (Er : risk_map etas v = map (map (fun _ => (None, None))) v).
+      { unfold risk_map. unfold degen in D. destruct (vol_min v), (vol_max v); try reflexivity. rewrite D. reflexivity. }
+      destruct (omap2_Forall2
+                  (fun cv_rc => G.compute_ambiguity_and_sampled_ambiguity_pixel (of_oq (vol_min v)) (of_oq (vol_max v))
+                                  (Z.of_nat nd) (xetas etas) (two_dim nd etas) cv_rc (XFin 0) (np_zeros (vlen (xetas etas))))
+                  xcurve (fun c => c) (fun _ _ => True) v) as (M & EM & HM).
+      { intros row c Hrow Hc'. rewrite <- (Hall row c Hrow Hc').
+        destruct (samp_pixel_degenerate (vol_min v) (vol_max v) etas (two_dim (length c) etas) c
+                                        (np_zeros (vlen (xetas etas))) D) as (s & Es).
+        { intros x mn Hx E. apply (Hc row c x mn Hrow Hc' Hx E). }
+        eexists. split; [exact Es|exact I]. }
+      unfold xvolume. rewrite EM. rewrite (map_ext _ _ (fun row => map_id row)), map_id in HM. rewrite Er, mapmap_comp.
+      apply (ozip2_Forall2 _ xcurve (fun _ : curve => xpair (None, None)) xeq2 (fun _ _ => True)).
+      + apply Forall2_map_l. eapply Forall2_impl; [|exact HM]. intros r0 row0 H0. apply Forall2_map_l. exact H0.
+      + intros row c s Hrow Hc' _. rewrite <- (Hall row c Hrow Hc').
+        pose proof (risk_pixel_degenerate (vol_min v) (vol_max v) etas (two_dim (length c) etas) c s D) as Ep.
+        exists (XNaN, XNaN). split; [|split; exact I]. apply Ep.
+        intros x mn Hx E. apply (Hc row c x mn Hrow Hc' Hx E).
+  Qed.
+End AllVolumes.
